@@ -10,6 +10,7 @@ CONSTANTS
   AllowCancel = TRUE
   EarlyExits = FALSE
   MaxConc = 3
+  Spawn = "go"
   Record = TRUE
 SPECIFICATION Spec
 INVARIANTS TypeOK SingleSend ReturnsOnce SuccessMeansQuorum ErrorMeansNoQuorum ErrorIsReal ChannelErrorIsReal
